@@ -85,14 +85,21 @@ def gen(ctx, rng):
 def additivity(ctx, rng):
     """sub-intervals that tile the width add up to the full-width matrix"""
     case = pc.gen_panel_case(rng, max_mn=3, y12=False)
+    if rng.random() < 0.5:          # ... also with a constant membrane pre-load on every strip
+        case['Nxx_cte'], case['Nyy_cte'], case['Nxy_cte'] = rng.uniform(-1e3, 1e3), rng.choice([None, 50.]), rng.choice([None, -30.])
     b = case['b']
     cuts = sorted([0.] + [rng.uniform(0.05, 0.95) * b for _ in range(rng.randint(1, 3))] + [b])
-    p = pc.make_panel(case)
+    def mk(c):
+        q_ = pc.make_panel(c)
+        for k in ('Nxx_cte', 'Nyy_cte', 'Nxy_cte'):
+            setattr(q_, k, c.get(k))
+        return q_
+    p = mk(case)
     full = pc.quiet(p.calc_k0, silent=True).toarray()
     acc = np.zeros_like(full)
     for y1, y2 in zip(cuts[:-1], cuts[1:]):
         c2 = dict(case, y1=y1, y2=y2)
-        acc += pc.quiet(pc.make_panel(c2).calc_k0, silent=True).toarray()
+        acc += pc.quiet(mk(c2).calc_k0, silent=True).toarray()
     d = pc.rel_diff(full, acc)
     if d > 1e-9:
         return dict(case, cuts=cuts), 'sub-interval matrices over cuts %r do not add up to the full-width matrix: rel %.3e' % (cuts, d)
